@@ -551,7 +551,7 @@ impl Property for C15 {
     }
 
     fn plan(&self, tier: Tier) -> Vec<Stage<Case>> {
-        vec![Stage::random("random", tier.pick(40_000, 1_000_000), case_strategy)]
+        vec![Stage::random("random", tier.pick(120_000, 4_000_000), case_strategy)]
     }
 
     fn rule(&self) -> String {
@@ -559,7 +559,7 @@ impl Property for C15 {
     }
 
     fn floors(&self, tier: Tier) -> Vec<Floor> {
-        let n = tier.pick(40_000u64, 1_000_000);
+        let n = tier.pick(120_000u64, 4_000_000);
         vec![
             Floor { label: "layout:natural", min: n / 10 },
             Floor { label: "layout:clamped", min: n / 10 },
